@@ -3,18 +3,27 @@
 Encoded (real code, nothing stubbed): ``_parse_xfcc``, ``_split_respecting_quotes``,
 ``_unescape_quoted``, ``_extract_cn`` and the ``authenticate`` closure of ``mtls_authenticate_xfcc``.
 
-(a) structured round trip.  A reference Envoy-style serializer (``Key="value"`` with ``\\`` and ``"``
-    backslash-escaped, ``;`` between pairs, ``,`` between elements) renders two elements x
-    {Hash, Subject, URI}; one slot (any of the six) holds an arbitrary hostile value, or both
-    Subject slots hold arbitrary values.  Asserted: the parser returns exactly the two elements
-    with exactly the rendered values (nothing split, merged or leaked across elements), and the
-    authenticator's principal / claims come from the selected (first / last) element only.
-(b) arbitrary header strings: nothing but ``AuthFailure`` escapes; missing => ``proxy_required``;
-    a header with no element (blank / commas only) => ``invalid_credential``; anything else
-    authenticates from the header alone.
-(c) ``_split_respecting_quotes`` on templates: lossless (join == text), equals ``str.split`` when
-    there is no quote, and a quoted segment (with delimiters and escaped quotes inside) adds no part.
-(d) percent-encoded delimiters in URI/By are decoded after splitting and never split.
+Hostile values are built from *symbolic code points* (``chr(i)`` with ``0 <= i < 0x110000``, i.e.
+every Python character incl. ``, ; " \\ = % space`` and all Unicode white space), rendered by a reference
+Envoy-style serializer (``Key="value"`` with ``\\`` and ``"`` backslash-escaped, ``;`` between pairs,
+``,`` between elements).  The parser is a composition split(',') -> split(';') -> value extraction;
+``str.lower`` on CrossHair strings costs ~0.4 s per call (once per pair), so the stages are decided
+separately on larger bounds and the whole pipeline on a smaller one:
+
+(a1) split stage: 2 elements x 3 pairs, any one value (len<=3) or both Subjects (len<=2) hostile:
+     splitting on ',' yields exactly the two rendered elements and splitting each on ';' exactly
+     its rendered pairs — quoted delimiters / escaped quotes never split or merge.
+(a2) value extraction: ``Key="<escaped v>"`` parses to one element whose field is exactly v
+     (Subject/Hash/DNS plain; URI/By through the URL-decoder with '%' rendered as %25).
+(a3) pipeline: two elements, a hostile character in either Subject; the ``first`` authenticator's
+     principal/claims come from element 0 only and the ``last`` one's from element 1 only.
+(b)  arbitrary header strings: nothing but ``AuthFailure`` escapes; missing => ``proxy_required``;
+     a header without any element (blank / commas) => ``invalid_credential``; anything else
+     authenticates.
+(c)  ``_split_respecting_quotes``: lossless, equals ``str.split`` without quotes, a quoted segment
+     (delimiters, escaped quote/backslash inside) adds no part; ``_unescape_quoted`` inverts the
+     escaping; ``_extract_cn`` returns the CN of the given subject wherever it stands.
+(d)  percent-encoded delimiters in URI/By are decoded after splitting and never split.
 """
 
 from __future__ import annotations
@@ -26,22 +35,30 @@ from vgi_rpc.http._unauthorized import AuthFailure, AuthReason
 
 PROPERTY = "C43"
 ENCODED = [mt._parse_xfcc, mt._split_respecting_quotes, mt._unescape_quoted, mt._extract_cn, mt.mtls_authenticate_xfcc]
-_LV = pick(2, 3)  # hostile value length
-_LS = pick(1, 2)  # two hostile subjects
-_LH = pick(4, 5)  # arbitrary header length
+_N1 = pick(3, 4)  # split stage: hostile value length
+_N1B = pick(2, 3)  # split stage: both subjects
+_N2 = pick(2, 3)  # value extraction, plain keys
+_N2U = pick(1, 2)  # value extraction through the URL decoder
+_N3 = pick(1, 2)  # pipeline
+_NH = pick(2, 4)  # arbitrary header
+_NB = pick(4, 7)  # blank header
+_CP = 0x110000
 BOUNDS = (
-    f"round trip: 2 elements x (Hash, Subject, URI), one slot any string len<={_LV} (no '%' when the slot is a URI), or both Subjects any "
-    f"string len<={_LS}; arbitrary headers: any string len<={_LH}; split templates: free parts len<=2, quoted part len<=2"
+    f"all characters = every code point 0..0x10FFFF; split stage: one hostile value len<={_N1} in any of 6 slots, or both Subjects len<={_N1B}; "
+    f"value extraction: len<={_N2} (Subject/Hash/DNS), len<={_N2U} (URI/By); pipeline: hostile suffix len<={_N3} in either Subject; "
+    f"arbitrary header: any string len<={_NH}; blank headers: len<={_NB} over space/comma/tab"
 )
 OUTSIDE = (
-    "PEM-in-header factories (cryptography); Cert field contents; whether the zero-length header value '' is 'missing' or 'empty' "
-    "(either reason accepted: the WSGI layer cannot tell them apart reliably); RFC 4514 correctness of _extract_cn beyond "
-    "'derived from the selected Subject only'; headers longer than the bound with more than one hostile value per element"
+    "PEM-in-header factories (cryptography); Cert field contents; whether the zero-length header value '' counts as 'missing' or 'empty' "
+    "(either reason accepted); RFC 4514 escapes inside CN beyond trailing-space trimming; several hostile values in the same element at "
+    "pipeline level (covered at split level only); headers longer than the stated bounds"
 )
 ASSUMPTIONS = [
     "reference serializer = Envoy convention: every value double-quoted, backslash and double-quote backslash-escaped, ';' between "
-    "pairs, ',' between elements; URI values additionally percent-encode '%' (the parser URL-decodes Cert/URI/By)",
+    "pairs, ',' between elements; URI/By values additionally render '%' as %25 (the parser URL-decodes Cert/URI/By)",
     "falcon.Request is a fake exposing get_header(name) only",
+    "composition argument: _parse_xfcc = split(',') ; split(';') ; per-pair extraction (read off the source) — each stage is decided "
+    "separately and the composition only on the smaller pipeline bound",
 ]
 
 
@@ -59,96 +76,272 @@ class _Req:
 _AUTH = {False: mt.mtls_authenticate_xfcc(select_element="first"), True: mt.mtls_authenticate_xfcc(select_element="last")}
 
 
+# ---------------------------------------------------------------------------
+# building hostile values from symbolic code points (length concrete on every path)
+# ---------------------------------------------------------------------------
+
+
+def _qc(c: str) -> str:
+    """Envoy-style escaping of one character inside a quoted value."""
+    return ("\\" + c) if (c == '"' or c == "\\") else c
+
+
+def _quc(c: str) -> str:
+    """Same, for a URL-decoded field: '%' travels as %25."""
+    return "%25" if c == "%" else _qc(c)
+
+
+def _val(n: int, i0: int, i1: int, i2: int, i3: int, url: bool = False) -> tuple[str, str]:
+    """(value, escaped rendering) of the first n of the four code points."""
+    v, e = "", ""
+    k = 0
+    for i in (i0, i1, i2, i3):
+        if k >= n:
+            break
+        c = chr(i)
+        v = v + c
+        e = e + (_quc(c) if url else _qc(c))
+        k += 1
+    return v, e
+
+
+def _concrete_val(n: int, cps: list[int], url: bool = False) -> tuple[str, str]:
+    v = "".join(chr(i) for i in cps[:n])
+    e = "".join((_quc(c) if url else _qc(c)) for c in v)
+    return v, e
+
+
 def _q(v: str) -> str:
-    """Envoy-style quoted value."""
+    """Envoy-style quoted value (concrete strings only)."""
     return '"' + v.replace("\\", "\\\\").replace('"', '\\"') + '"'
 
 
-def _render(vals: list[str]) -> str:
-    """vals = [hash0, subject0, uri0, hash1, subject1, uri1]."""
-    e0 = "Hash=" + _q(vals[0]) + ";Subject=" + _q(vals[1]) + ";URI=" + _q(vals[2])
-    e1 = "Hash=" + _q(vals[3]) + ";Subject=" + _q(vals[4]) + ";URI=" + _q(vals[5])
-    return e0 + "," + e1
+_KEYS6 = ["Hash", "Subject", "URI", "Hash", "Subject", "URI"]
+# fixed neighbours: themselves full of delimiters so that a split/merge/leak is visible
+_BASE = ["ab", 'CN=1,O=A\\, B;k="v"', "u:;a=b,c", "cd", 'O=x y,CN=2;"z"', 'n:"2",x']
+_BASE_PAIRS = [_KEYS6[i] + "=" + _q(_BASE[i]) for i in range(6)]
 
 
-# fixed neighbours: themselves full of delimiters so that a leak from/into them is visible
-_BASE = ["ab12", 'CN=one,O=A\\, Inc;k="v"', "spiffe://td/ns;a=b,c", "cd34", 'O=x y,CN=two;"z"', 'urn:"two",x']
+# ---------------------------------------------------------------------------
+# (a1) split stage
+# ---------------------------------------------------------------------------
 
 
-def _check_parsed(header: str, vals: list[str], last: bool) -> bool:
+def _split_stage_ok(pairs: list[str]) -> bool:
+    e0 = pairs[0] + ";" + pairs[1] + ";" + pairs[2]
+    e1 = pairs[3] + ";" + pairs[4] + ";" + pairs[5]
     try:
-        els = mt._parse_xfcc(header)
+        els = mt._split_respecting_quotes(e0 + "," + e1, ",")
+        if len(els) != 2 or els[0] != e0 or els[1] != e1:
+            return False
+        p0 = mt._split_respecting_quotes(els[0], ";")
+        p1 = mt._split_respecting_quotes(els[1], ";")
     except Exception:  # noqa: BLE001
         return False
-    if len(els) != 2:
-        return False
-    for i in (0, 1):
-        e = els[i]
-        if e.hash != vals[3 * i] or e.subject != vals[3 * i + 1] or e.uri != vals[3 * i + 2]:
-            return False
-        if e.cert is not None or e.by is not None or e.dns != ():
-            return False
-    try:
-        ctx = _AUTH[last](_Req(True, header))
-    except Exception:  # noqa: BLE001
-        return False
-    k = 3 if last else 0
-    if not (ctx.authenticated is True and ctx.domain == "mtls"):
-        return False
-    # identity comes from the selected element only
-    if ctx.principal != (mt._extract_cn(vals[k + 1]) if vals[k + 1] else ""):
-        return False
-    c = ctx.claims
-    for key, want in (("hash", vals[k]), ("subject", vals[k + 1]), ("uri", vals[k + 2])):
-        if want:
-            if c.get(key) != want:
-                return False
-        elif key in c:
-            return False
-    return "dns" not in c and "by" not in c
+    return len(p0) == 3 and len(p1) == 3 and p0[0] == pairs[0] and p0[1] == pairs[1] and p0[2] == pairs[2] \
+        and p1[0] == pairs[3] and p1[1] == pairs[4] and p1[2] == pairs[5]
 
 
-def _replay_roundtrip(args: dict) -> str | None:
-    if "slot" in args:
-        shown = list(_BASE)
-        shown[args["slot"]] = args["v"]
-    else:
-        shown = list(_BASE)
-        shown[1], shown[4] = "CN=" + args["v0"], "CN=" + args["v1"]
-    rendered = shown
-    header = _render(rendered)
-    if _check_parsed(header, shown, bool(args["last"])):
+def _replay_split_one(args: dict) -> str | None:
+    v, e = _concrete_val(args["n"], [args["i0"], args["i1"], args["i2"], args["i3"]])
+    pairs = list(_BASE_PAIRS)
+    pairs[args["slot"]] = _KEYS6[args["slot"]] + '="' + e + '"'
+    if _split_stage_ok(pairs):
         return None
+    header = ";".join(pairs[:3]) + "," + ";".join(pairs[3:])
+    return f"value {v!r} in slot {args['slot']}: header {header!r} split into {mt._split_respecting_quotes(header, ',')!r}"
+
+
+@cond(q=40, t=300, encoded=[mt._split_respecting_quotes], bound="slot 0..5, value = any %d code points" % _N1,
+      replay=_replay_split_one, signature=lambda args, conc: "C43:split:quoted-value-splits-or-merges")
+def split_stage_one_hostile_value(slot: int, n: int, i0: int, i1: int, i2: int, i3: int) -> bool:
+    """
+    pre: 0 <= slot <= 5 and 0 <= n <= _N1 and 0 <= i0 < _CP and 0 <= i1 < _CP and 0 <= i2 < _CP and 0 <= i3 < _CP
+    post: _
+    """
+    v, e = _val(n, i0, i1, i2, i3)
+    pairs = list(_BASE_PAIRS)
+    for k in range(6):
+        if slot == k:
+            pairs[k] = _KEYS6[k] + '="' + e + '"'
+    return _split_stage_ok(pairs)
+
+
+def _replay_split_two(args: dict) -> str | None:
+    _, ea = _concrete_val(args["na"], [args["a0"], args["a1"], args["a2"], 0])
+    _, eb = _concrete_val(args["nb"], [args["b0"], args["b1"], args["b2"], 0])
+    pairs = list(_BASE_PAIRS)
+    pairs[1] = 'Subject="' + ea + '"'
+    pairs[4] = 'Subject="' + eb + '"'
+    if _split_stage_ok(pairs):
+        return None
+    header = ";".join(pairs[:3]) + "," + ";".join(pairs[3:])
+    return f"header {header!r} split into {mt._split_respecting_quotes(header, ',')!r}"
+
+
+@cond(q=40, t=300, encoded=[mt._split_respecting_quotes], bound="both Subject values = any %d code points each" % _N1B,
+      replay=_replay_split_two, signature=lambda args, conc: "C43:split:quoted-value-splits-or-merges")
+def split_stage_both_subjects_hostile(na: int, a0: int, a1: int, a2: int, nb: int, b0: int, b1: int, b2: int) -> bool:
+    """
+    pre: 0 <= na <= _N1B and 0 <= nb <= _N1B and 0 <= a0 < _CP and 0 <= a1 < _CP and 0 <= a2 < _CP and 0 <= b0 < _CP and 0 <= b1 < _CP and 0 <= b2 < _CP
+    post: _
+    """
+    _, ea = _val(na, a0, a1, a2, 0)
+    _, eb = _val(nb, b0, b1, b2, 0)
+    pairs = list(_BASE_PAIRS)
+    pairs[1] = 'Subject="' + ea + '"'
+    pairs[4] = 'Subject="' + eb + '"'
+    return _split_stage_ok(pairs)
+
+
+# ---------------------------------------------------------------------------
+# (a2) value extraction
+# ---------------------------------------------------------------------------
+
+
+def _field(el: mt.XfccElement, key: str):  # type: ignore[no-untyped-def]
+    if key == "DNS":
+        return el.dns[0] if len(el.dns) == 1 else None
+    return getattr(el, key.lower())
+
+
+def _extract_ok(key: str, v: str, e: str) -> bool:
     try:
-        got = mt._parse_xfcc(header)
-    except Exception as e:  # noqa: BLE001
-        got = e
-    return f"header {header!r} (Envoy-style rendering of {shown!r}) parsed to {got!r}; selected={'last' if args['last'] else 'first'}"
+        els = mt._parse_xfcc(key + '="' + e + '"')
+    except Exception:  # noqa: BLE001
+        return False
+    if len(els) != 1:
+        return False
+    el = els[0]
+    if _field(el, key) != v:
+        return False
+    # nothing else is populated
+    others = 0
+    for k in ("Hash", "Subject", "URI", "By", "DNS"):
+        if k != key and (el.dns != () if k == "DNS" else _field(el, k) is not None):
+            others += 1
+    return others == 0 and el.cert is None
 
 
-@cond(q=60, t=300, encoded=ENCODED, bound="slot 0..5, value any str len<=%d ('%%' excluded for URI slots)" % _LV,
-      replay=_replay_roundtrip, signature=lambda args, conc: "C43:roundtrip:hostile-value-splits-or-leaks")
-def roundtrip_hostile_value_any_slot(slot: int, v: str, last: bool) -> bool:
+def _replay_extract(args: dict) -> str | None:
+    key = args.get("_key") or ["Hash", "DNS", "URI", "By"][args.get("key", 0)]
+    url = key in ("URI", "By")
+    v, e = _concrete_val(args["n"], [args["i0"], args.get("i1", 0), args.get("i2", 0), 0], url)
+    if _extract_ok(key, v, e):
+        return None
+    h = key + '="' + e + '"'
+    return f"header {h!r} (value {v!r}) parsed to {mt._parse_xfcc(h)!r}"
+
+
+@cond(q=60, t=400, encoded=[mt._parse_xfcc, mt._unescape_quoted], bound="Subject value = any %d code points" % _N2,
+      replay=lambda a: _replay_extract({**a, "_key": "Subject"}), signature=lambda args, conc: "C43:extract:value-not-preserved")
+def extract_subject_value_exact(n: int, i0: int, i1: int, i2: int) -> bool:
     """
-    pre: 0 <= slot <= 5 and len(v) <= _LV and (slot % 3 != 2 or "%" not in v)
+    pre: 0 <= n <= _N2 and 0 <= i0 < _CP and 0 <= i1 < _CP and 0 <= i2 < _CP
     post: _
     """
-    vals = list(_BASE)
-    vals[slot] = v
-    return _check_parsed(_render(vals), vals, last)
+    v, e = _val(n, i0, i1, i2, 0)
+    return _extract_ok("Subject", v, e)
 
 
-@cond(q=60, t=300, encoded=ENCODED, bound="Subject of both elements = 'CN=' + any str len<=%d" % _LS,
-      replay=_replay_roundtrip, signature=lambda args, conc: "C43:roundtrip:cross-element-contamination")
-def roundtrip_two_hostile_subjects(v0: str, v1: str, last: bool) -> bool:
+@cond(q=60, t=400, encoded=[mt._parse_xfcc, mt._unescape_quoted], bound="key in Hash/DNS/URI/By, value = any %d code points ('%%' as %%25 for URI/By)" % _N2U,
+      replay=_replay_extract, signature=lambda args, conc: "C43:extract:value-not-preserved")
+def extract_other_keys_value_exact(key: int, n: int, i0: int, i1: int) -> bool:
     """
-    pre: len(v0) <= _LS and len(v1) <= _LS
+    pre: 0 <= key <= 3 and 0 <= n <= _N2U and 0 <= i0 < _CP and 0 <= i1 < _CP
     post: _
     """
-    vals = list(_BASE)
-    vals[1] = "CN=" + v0
-    vals[4] = "CN=" + v1
-    return _check_parsed(_render(vals), vals, last)
+    name = "Hash"
+    for k in range(4):
+        if key == k:
+            name = ["Hash", "DNS", "URI", "By"][k]
+    v, e = _val(n, i0, i1, 0, 0, name in ("URI", "By"))
+    return _extract_ok(name, v, e)
+
+
+# ---------------------------------------------------------------------------
+# (a3) pipeline: who the authenticator says the caller is
+# ---------------------------------------------------------------------------
+
+
+def _cn_of(base: str, n: int, cps: list) -> str:  # type: ignore[type-arg]
+    """CN the subject 'CN=' + base + hostile suffix denotes: up to the first unescaped ',', trailing white space trimmed."""
+    out = base
+    pending_ws = ""
+    k = 0
+    for i in cps:
+        if k >= n:
+            break
+        c = chr(i)
+        if c == ",":
+            return out
+        if c.isspace():
+            pending_ws = pending_ws + c
+        else:
+            out = out + pending_ws + c
+            pending_ws = ""
+        k += 1
+    return out
+
+
+def _pipeline_ok(slot: bool, n: int, cps: list) -> bool:  # type: ignore[type-arg]
+    v, e = "", ""
+    k = 0
+    for i in cps:
+        if k >= n:
+            break
+        v = v + chr(i)
+        e = e + _qc(chr(i))
+        k += 1
+    s0 = "CN=a" + (v if not slot else "")
+    s1 = "CN=b" + (v if slot else "")
+    r0 = "CN=a" + (e if not slot else "")
+    r1 = "CN=b" + (e if slot else "")
+    header = 'Subject="' + r0 + '",Subject="' + r1 + '"'
+    try:
+        first = _AUTH[False](_Req(True, header))
+        last = _AUTH[True](_Req(True, header))
+    except Exception:  # noqa: BLE001
+        return False
+    if first.claims.get("subject") != s0 or last.claims.get("subject") != s1:
+        return False
+    if "\\" in v:
+        # RFC 4514 escapes inside the CN are outside the claim; the subject claim above still pins the element
+        want0, want1 = first.principal, last.principal
+    else:
+        want0 = _cn_of("a", 0 if slot else n, cps)
+        want1 = _cn_of("b", n if slot else 0, cps)
+    if first.principal != want0 or last.principal != want1:
+        return False
+    return first.authenticated is True and last.authenticated is True and len(first.claims) == 1 and len(last.claims) == 1
+
+
+def _replay_pipeline(args: dict) -> str | None:
+    cps = [args["i0"], args["i1"]]
+    if _pipeline_ok(bool(args["slot"]), args["n"], cps):
+        return None
+    v, e = _concrete_val(args["n"], cps + [0, 0])
+    r0 = "CN=a" + (e if not args["slot"] else "")
+    r1 = "CN=b" + (e if args["slot"] else "")
+    header = 'Subject="' + r0 + '",Subject="' + r1 + '"'
+    import falcon.testing
+
+    try:
+        req = falcon.testing.create_req(headers={mt._XFCC_HEADER: header})
+        f, l = _AUTH[False](req), _AUTH[True](req)
+        return f"header {header!r}: first -> principal {f.principal!r} claims {dict(f.claims)!r}; last -> principal {l.principal!r} claims {dict(l.claims)!r}"
+    except Exception as ex:  # noqa: BLE001
+        return f"header {header!r}: {type(ex).__name__}: {ex}"
+
+
+@cond(q=60, t=400, encoded=ENCODED, bound="Subject 'CN=a'/'CN=b' + any %d code points appended to either" % _N3,
+      replay=_replay_pipeline, signature=lambda args, conc: "C43:pipeline:identity-not-from-selected-element")
+def pipeline_identity_from_selected_element(slot: bool, n: int, i0: int, i1: int) -> bool:
+    """
+    pre: 0 <= n <= _N3 and 0 <= i0 < _CP and 0 <= i1 < _CP
+    post: _
+    """
+    return _pipeline_ok(slot, n, [i0, i1])
 
 
 # ---------------------------------------------------------------------------
@@ -156,38 +349,18 @@ def roundtrip_two_hostile_subjects(v0: str, v1: str, last: bool) -> bool:
 # ---------------------------------------------------------------------------
 
 
-def _replay_arbitrary(args: dict) -> str | None:
-    import falcon.testing
-
-    headers = {mt._XFCC_HEADER: args["raw"]} if args["present"] else {}
-    try:
-        req = falcon.testing.create_req(headers=headers)
-    except Exception:  # noqa: BLE001
-        req = _Req(args["present"], args["raw"])  # a value no WSGI server could deliver; still the parser's input domain
-    blank = args["raw"].replace(",", "").strip() == ""
-    for last in (False, True):
-        try:
-            ctx = _AUTH[last](req)
-        except AuthFailure as e:
-            if not args["present"] and e.reason is not AuthReason.PROXY_REQUIRED:
-                return f"missing header rejected with {e.reason!r}, not proxy_required"
-            if args["present"] and args["raw"] != "" and not (blank and e.reason is AuthReason.INVALID_CREDENTIAL):
-                return f"header {args['raw']!r} rejected with {e.reason!r} ({e})"
-            continue
-        except Exception as e:  # noqa: BLE001
-            return f"header {args['raw']!r}: {type(e).__name__}: {e} escaped mtls_authenticate_xfcc"
-        if not args["present"] or blank:
-            return f"header {args['raw'] if args['present'] else None!r} authenticated as {ctx!r}"
-    return None
+def _raw_of(n: int, cps: list) -> str:  # type: ignore[type-arg]
+    raw = ""
+    k = 0
+    for i in cps:
+        if k >= n:
+            break
+        raw = raw + chr(i)
+        k += 1
+    return raw
 
 
-@cond(q=60, t=600, encoded=ENCODED, bound="header absent or any str len<=%d" % _LH,
-      replay=_replay_arbitrary, signature=lambda args, conc: "C43:arbitrary-header:wrong-outcome")
-def arbitrary_header_only_authfailure(present: bool, raw: str, last: bool) -> bool:
-    """
-    pre: len(raw) <= _LH
-    post: _
-    """
+def _arbitrary_ok(present: bool, raw: str, blank: bool, last: bool) -> bool:
     try:
         ctx = _AUTH[last](_Req(present, raw))
     except AuthFailure as e:
@@ -196,20 +369,80 @@ def arbitrary_header_only_authfailure(present: bool, raw: str, last: bool) -> bo
         if raw == "":
             return e.reason is AuthReason.PROXY_REQUIRED or e.reason is AuthReason.INVALID_CREDENTIAL
         # present and non-empty: only a header without any element may be refused, as invalid_credential
-        return e.reason is AuthReason.INVALID_CREDENTIAL and raw.replace(",", "").strip() == ""
+        return e.reason is AuthReason.INVALID_CREDENTIAL and blank
     except Exception:  # noqa: BLE001
         return False
-    if not present or raw.replace(",", "").strip() == "":
+    if not present or blank:
         return False
     return ctx.authenticated is True and ctx.domain == "mtls" and isinstance(ctx.principal, str)
 
 
-# ---------------------------------------------------------------------------
-# (c) the splitter
-# ---------------------------------------------------------------------------
+def _replay_arbitrary(args: dict) -> str | None:
+    if "i0" in args:
+        raw = "".join(chr(args[k]) for k in ("i0", "i1", "i2", "i3")[: args["n"]])
+    else:
+        raw = "".join(" ,\t"[args[k]] for k in ("k0", "k1", "k2", "k3", "k4", "k5", "k6")[: args["n"]])
+    present = bool(args.get("present", True))
+    blank = raw.replace(",", "").strip() == ""
+    for last in (False, True):
+        if not _arbitrary_ok(present, raw, blank, last):
+            try:
+                got = repr(_AUTH[last](_Req(present, raw)))
+            except Exception as e:  # noqa: BLE001
+                got = f"{type(e).__name__}({e}) reason={getattr(e, 'reason', None)!r}"
+            return f"x-forwarded-client-cert {'absent' if not present else repr(raw)} (select {'last' if last else 'first'}) -> {got}"
+    return None
 
 
-@cond(q=40, t=200, encoded=[mt._split_respecting_quotes], bound="any str len<=%d, delimiter ',' or ';'" % pick(3, 4))
+@cond(q=60, t=900, encoded=ENCODED, bound="header absent or any %d code points" % _NH,
+      replay=_replay_arbitrary, signature=lambda args, conc: "C43:arbitrary-header:wrong-outcome")
+def arbitrary_header_only_authfailure(present: bool, last: bool, n: int, i0: int, i1: int, i2: int, i3: int) -> bool:
+    """
+    pre: 0 <= n <= _NH and 0 <= i0 < _CP and 0 <= i1 < _CP and 0 <= i2 < _CP and 0 <= i3 < _CP
+    post: _
+    """
+    raw = _raw_of(n, [i0, i1, i2, i3])
+    # blank <=> only commas and white space (a quote or any other character makes an element)
+    blank = True
+    k = 0
+    for i in (i0, i1, i2, i3):
+        if k < n and not (chr(i) == "," or chr(i).isspace()):
+            blank = False
+        k += 1
+    return _arbitrary_ok(present, raw, blank, last)
+
+
+@cond(q=30, t=200, encoded=ENCODED, bound="any %d characters over space/comma/tab" % _NB,
+      replay=_replay_arbitrary, signature=lambda args, conc: "C43:blank-header:not-invalid-credential")
+def blank_header_is_invalid_credential(last: bool, n: int, k0: int, k1: int, k2: int, k3: int, k4: int, k5: int, k6: int) -> bool:
+    """
+    pre: 1 <= n <= _NB and 0 <= k0 <= 2 and 0 <= k1 <= 2 and 0 <= k2 <= 2 and 0 <= k3 <= 2 and 0 <= k4 <= 2 and 0 <= k5 <= 2 and 0 <= k6 <= 2
+    post: _
+    """
+    raw = ""
+    j = 0
+    for k in (k0, k1, k2, k3, k4, k5, k6):
+        if j >= n:
+            break
+        raw = raw + chr(32 + 12 * k - 35 * (k // 2))  # 0 -> ' ', 1 -> ',', 2 -> '\t'
+        j += 1
+    try:
+        _AUTH[last](_Req(True, raw))
+    except AuthFailure as e:
+        return e.reason is AuthReason.INVALID_CREDENTIAL
+    except Exception:  # noqa: BLE001
+        return False
+    return False
+
+
+# ---------------------------------------------------------------------------
+# (c) the splitter, the unescaper, the CN extractor
+# ---------------------------------------------------------------------------
+
+_LT = pick(3, 4)
+
+
+@cond(q=40, t=200, encoded=[mt._split_respecting_quotes], bound="any str len<=%d, delimiter ',' or ';'" % _LT)
 def split_is_lossless_and_plain_without_quotes(text: str, semi: bool) -> bool:
     """
     pre: len(text) <= _LT
@@ -227,46 +460,77 @@ def split_is_lossless_and_plain_without_quotes(text: str, semi: bool) -> bool:
     return True
 
 
-_LT = pick(3, 4)
-
-
-@cond(q=60, t=300, encoded=[mt._split_respecting_quotes], bound="x,y quote-free len<=1; quoted a,b any len<=1 without quote/backslash; optional escaped quote between")
-def split_quoted_segment_adds_no_part(x: str, a: str, b: str, y: str, semi: bool, esc: int) -> bool:
+@cond(q=40, t=200, encoded=[mt._split_respecting_quotes],
+      bound="x + '\"' + a + d + (nothing | escaped quote | escaped backslash) + d + b + '\"' + y; x,y,a,b any single code point or empty (a,b not quote/backslash; x,y not quote)")
+def split_quoted_segment_adds_no_part(semi: bool, esc: int, nx: int, x0: int, ny: int, y0: int, na: int, a0: int, nb: int, b0: int) -> bool:
     """
-    pre: len(x) <= 1 and len(y) <= 1 and len(a) <= 1 and len(b) <= 1 and 0 <= esc <= 2
+    pre: 0 <= esc <= 2 and 0 <= nx <= 1 and 0 <= ny <= 1 and 0 <= na <= 1 and 0 <= nb <= 1 and 0 <= x0 < _CP and 0 <= y0 < _CP and 0 <= a0 < _CP and 0 <= b0 < _CP
     post: _
     """
     d = ";" if semi else ","
-    if '"' in x or '"' in y or '"' in a or '"' in b or "\\" in a or "\\" in b:
+    x = chr(x0) if nx else ""
+    y = chr(y0) if ny else ""
+    a = chr(a0) if na else ""
+    b = chr(b0) if nb else ""
+    if x == '"' or y == '"' or a == '"' or b == '"' or a == "\\" or b == "\\":
         return True
-    mid = ["", '\\"', "\\\\"][esc]
+    mid = ""
+    if esc == 1:
+        mid = '\\"'
+    if esc == 2:
+        mid = "\\\\"
     quoted = '"' + a + d + mid + d + b + '"'
-    text = x + quoted + y
     try:
-        parts = mt._split_respecting_quotes(text, d)
+        parts = mt._split_respecting_quotes(x + quoted + y, d)
     except Exception:  # noqa: BLE001
         return False
-    # reference: the quoted segment is opaque — split what is outside, the segment stays with its neighbours
-    left = x.split(d)
-    right = y.split(d)
-    want = left[:-1] + [left[-1] + quoted + right[0]] + right[1:]
+    # reference: the quoted segment is opaque; only a free x / y equal to the delimiter separates
+    want = []
+    cur = ""
+    if x == d:
+        want.append("")
+    else:
+        cur = x
+    cur = cur + quoted
+    if y == d:
+        want.append(cur)
+        cur = ""
+    else:
+        cur = cur + y
+    want.append(cur)
     return parts == want
 
 
-@cond(q=40, t=200, encoded=[mt._unescape_quoted, mt._extract_cn], bound="any str len<=%d" % pick(3, 4))
-def unescape_inverts_escape_and_cn_is_local(v: str, pos: int) -> bool:
+@cond(q=30, t=200, encoded=[mt._unescape_quoted], bound="any %d code points" % pick(3, 4))
+def unescape_inverts_escape(n: int, i0: int, i1: int, i2: int, i3: int) -> bool:
     """
-    pre: len(v) <= _LT and 0 <= pos <= 2
+    pre: 0 <= n <= _LT and 0 <= i0 < _CP and 0 <= i1 < _CP and 0 <= i2 < _CP and 0 <= i3 < _CP
     post: _
     """
-    esc = v.replace("\\", "\\\\").replace('"', '\\"')
+    v, e = _val(n, i0, i1, i2, i3)
     try:
-        if mt._unescape_quoted(esc) != v:
-            return False
-        if "," in v or "\\" in v or v != v.strip():
-            return True
-        subject = ["CN=" + v + ",O=acme", "O=acme,CN=" + v, "O=a\\,CN=evil,cn=" + v + ",OU=x"][pos]
-        return mt._extract_cn(subject) == v
+        return mt._unescape_quoted(e) == v
+    except Exception:  # noqa: BLE001
+        return False
+
+
+@cond(q=60, t=300, encoded=[mt._extract_cn], bound="CN value = 'x' + any %d code points (no backslash), at three positions of the DN" % pick(1, 2))
+def extract_cn_is_positional_and_local(pos: int, n: int, i0: int, i1: int) -> bool:
+    """
+    pre: 0 <= pos <= 2 and 0 <= n <= _N3 and 0 <= i0 < _CP and 0 <= i1 < _CP
+    post: _
+    """
+    v = _raw_of(n, [i0, i1])
+    if "\\" in v:
+        return True
+    want = _cn_of("x", n, [i0, i1])
+    subject = "CN=x" + v + ",O=acme"
+    if pos == 1:
+        subject = "O=acme,CN=x" + v
+    if pos == 2:
+        subject = "O=a\\,CN=evil,cn=x" + v + ",OU=y"
+    try:
+        return mt._extract_cn(subject) == want
     except Exception:  # noqa: BLE001
         return False
 
@@ -279,24 +543,28 @@ _DELIMS = [",", ";", '"', "=", "\\", " ", "%"]
 _PCT = ["%2C", "%3B", "%22", "%3D", "%5C", "%20", "%25"]
 
 
-@cond(q=30, t=120, encoded=[mt._parse_xfcc], bound="URI/By = x + %XX + y, x,y one benign char each, XX in the 7 delimiter codes, quoted or bare")
-def percent_encoded_delimiters_never_split(k: int, by: bool, quoted: bool, x: str, y: str, last: bool) -> bool:
+@cond(q=60, t=200, encoded=[mt._parse_xfcc], bound="URI/By = 'a' + %XX + 'b' for the 7 delimiter codes, quoted or bare, then a second element")
+def percent_encoded_delimiters_never_split(k: int, by: bool, quoted: bool) -> bool:
     """
-    pre: 0 <= k <= 6 and len(x) == 1 and len(y) == 1 and x in "aZ9" and y in "bY0"
+    pre: 0 <= k <= 6
     post: _
     """
-    enc = x + _PCT[k] + y
-    dec = x + _DELIMS[k] + y
+    enc, dec = "", ""
+    for j in range(7):
+        if k == j:
+            enc = "a" + _PCT[j] + "b"
+            dec = "a" + _DELIMS[j] + "b"
     key = "By" if by else "URI"
     first = key + "=" + ('"' + enc + '"' if quoted else enc) + ';Subject="CN=one"'
     header = first + ',Subject="CN=two";Hash=ff'
     try:
         els = mt._parse_xfcc(header)
-        ctx = _AUTH[last](_Req(True, header))
+        c_first = _AUTH[False](_Req(True, header))
+        c_last = _AUTH[True](_Req(True, header))
     except Exception:  # noqa: BLE001
         return False
     if len(els) != 2 or els[0].subject != "CN=one" or els[1].subject != "CN=two" or els[1].hash != "ff":
         return False
     if (els[0].by if by else els[0].uri) != dec or (els[0].uri if by else els[0].by) is not None:
         return False
-    return ctx.principal == ("two" if last else "one")
+    return c_first.principal == "one" and c_last.principal == "two"
